@@ -197,7 +197,7 @@ func checkC04(w *World, r *Report) {
 			r.bad("C04.barrier", f, "Func.Fn value", f.Pos(), "neither a barrier nor in the audited closure")
 		}
 	}
-	r.floor("C04.barrier", "functions usable as Func.Fn (6 adapters + at least one raw builtin)", nb, 7)
+	r.floor("C04.barrier", "functions usable as Func.Fn (the binder's adapters + at least one raw builtin)", nb, 3)
 
 	// C04.recover-total: handlers of all barriers seen + malRecover
 	handlers := map[*ssa.Function]bool{}
